@@ -418,7 +418,7 @@ func runC15(c *core.Ctx) {
 		if i%2 == 0 {
 			src = wl.SoupFrom(r, c15Soup, 2+r.Intn(14))
 		} else {
-			src = wl.Mix(r, corpus)
+			src = mixDoc(r, corpus)
 		}
 		spec := specs[r.Intn(len(specs))]
 		c15Check(c, pool, spec, c15Doc{src: src, container: "soup"})
